@@ -62,6 +62,11 @@ func (s *sim) tweakCoinbase(blk *types.Block, bad string, height uint32, miner *
 			outs[1].Value += outs[2].Value
 			outs = outs[:2]
 		}
+	case "cb-drop3":
+		// the first two outputs exactly as they should be, the third missing
+		if len(outs) >= 3 {
+			outs = outs[:2]
+		}
 	default:
 		return
 	}
